@@ -13,9 +13,14 @@ def retained(n, nl):
     return np.arange(-nl // 2, nl // 2)
 
 
-def solve(q0, dom, hgt, prof, modes, halo, meas_pt=(0.0, 0.0), bg=0.0, footprint=False):
+def solve(q0, dom, hgt, prof, modes, halo, meas_pt=(0.0, 0.0), bg=0.0, footprint=False, transfer=None, mean_resistance=None):
     """q0 (ny,nx); hgt: heights above the lowest node, shape (nl,); prof=(u,v,Kx,Ky,Kz) scalars.
-    returns conc, flx of shape (nl, ny, nx)"""
+    returns conc, flx of shape (nl, ny, nx).
+    With `transfer` (callable (kx, ky) -> (Hp, Hq), arrays of shape (nl, M) for the M non-zero wavenumbers handed in)
+    and `mean_resistance` (array (nl,)) the same assembly is used around any per-mode solution (e.g. the Riccati
+    reference for height-dependent profiles); prof is then ignored."""
+    if transfer is not None:
+        prof = (0.0, 0.0, 1.0, 1.0, 1.0)
     u, v, Kx, Ky, Kz = prof
     ny, nx = q0.shape
     dx, dy = dom[0] / nx, dom[1] / ny
@@ -48,7 +53,13 @@ def solve(q0, dom, hgt, prof, modes, halo, meas_pt=(0.0, 0.0), bg=0.0, footprint
     Q = F[None] * np.exp(-lam[None] * hgt[:, None, None])
     with np.errstate(all="ignore"):
         P = Q / (Kz * lam[None])
-    P[:, zero] = (bg - F[zero] * hgt / Kz)[:, None] if zero.any() else P[:, zero]
+    if transfer is not None:
+        nz_ = ~zero
+        Hp, Hq = transfer(KX[nz_], KY[nz_])
+        Q[:, nz_] = F[nz_][None] * Hq
+        P[:, nz_] = F[nz_][None] * Hp
+    res = hgt / Kz if mean_resistance is None else np.asarray(mean_resistance, dtype=float)
+    P[:, zero] = (bg - F[zero] * res)[:, None] if zero.any() else P[:, zero]
     Q[:, zero] = F[zero]
     xm, ym = meas_pt
     if footprint:
